@@ -494,7 +494,123 @@ def rule_root_result(ctx):
               bad_what="alpha_beta_start can return from a completed iteration without recording (best_score, best_move): iter_deep then reports the previous iteration's move or an arbitrary legal move")
 
 
-RULES = [("root-result", rule_root_result), ("permutation", rule_permutation), ("noninterference", rule_noninterference), ("windows", rule_windows), ("cut", rule_cut), ("terminal", rule_terminal)]
+def classify_exit(ix, b, sym, bi, v, aborts):
+    """Which exit of the reference game a `return <v>` in block bi is; None when it is none of them."""
+    cons = C.constraints_for(ix, b, sym, bi)
+    txt = expr_str(v)
+    # abort dummy: on the abort edge of a running / limits test
+    for c in cons:
+        e = c[3]
+        if e[0] == "call":
+            for kind in ("running", "limits"):
+                pol = C.predicate_polarity(ix, e, kind)
+                if pol is not None and set(c[1]) == {pol}:
+                    return "abort"
+    if aborts and bi not in C.reach_avoiding(b, 0, forbidden_edges=aborts):
+        return "abort"  # reachable only through the abort edge of a running / limits test
+    if v == ("const", 0, "i16"):
+        for c in cons:
+            if "get_halfmove_clock" in c[0] and True in c[1]:
+                return "fifty-move draw"
+            if "position_reached" in c[0] and True in c[1]:
+                return "repetition draw"
+            if c[3][0] == "bin" and c[3][1] == "Eq" and c[3][2] == ("var", "total_legal_moves") and True in c[1]:
+                return "stalemate"
+    if any(c[3][0] == "bin" and c[3][1] == "Eq" and c[3][2] == ("var", "total_legal_moves") and True in c[1] for c in cons):
+        if "is_in_check" in " ".join(c[0] for c in cons) and "MIN" not in txt and ("-32768" in txt or "i16::MIN" in txt or "Add" in txt):
+            return "mate score"
+        if v[0] == "agg" or "default" in txt.lower():
+            return "no move"
+    if any("Vec::is_empty" in c[0] and True in c[1] for c in cons):
+        return "no move"
+    # cache hit: under the probe's Some arm and the depth test
+    if any(("HashMap::get" in c[0] or "HashMap" in c[0]) and "Some" in c[1] for c in cons):
+        if "entry" in txt or "score" in txt or v in (("var", "alpha"), ("var", "beta")) or "(HashMap" in txt or "as Some" in txt:
+            return "cache"
+    if v[0] == "call" and v[1] == C.QUIESCENCE:
+        # at the horizon and nowhere else: the only condition is depth == 0 (after the draw tests and the cache probe)
+        at_horizon = any(c[3][0] == "bin" and c[3][1] == "Eq" and c[3][2] == ("arg", "depth") and c[3][3][:2] == ("const", 0) and set(c[1]) == {True} for c in cons)
+        return "quiescence at the horizon" if at_horizon else None
+    if v[0] == "call" and v[1].endswith("Default>::default") and any(("Vec::is_empty" in c[0] or (c[3][0] == "bin" and c[3][2] == ("var", "total_legal_moves"))) and True in c[1] for c in cons):
+        return "no move"
+    # beta cut-off: return beta / score under score >= beta
+    for c in cons:
+        e = c[3]
+        if e[0] == "bin" and e[1] in ("Ge", "Gt") and is_beta(e[3]) and set(c[1]) == {True} and (is_beta(v) or v == e[2]):
+            # the value compared with beta is a search / evaluation result of this node
+            lhs = e[2]
+            if lhs[0] == "var" and lhs[1].split("#")[0] == "score" or (lhs[0] == "call" and ("evaluate" in lhs[1] or "saturating_neg" in lhs[1])):
+                return "beta cut-off"
+    return None
+
+
+def rule_exits(ctx):
+    """The search has exactly the exits of the reference game: abort, the two draws, a cache hit, quiescence at the
+    horizon, beta cut-off, mate / stalemate, and the final value -- no other early return (forward pruning), and no move of the
+    ordered list is skipped except an illegal one."""
+    ix = ctx.ix
+    for key in (C.ALPHA_BETA, C.QUIESCENCE, C.ALPHA_BETA_START):
+        b = ctx.body(key)
+        sym = ctx.sym(b)
+        aborts = C.abort_edges(ix, b)
+        rets = [bx.idx for bx in b.blocks if not bx.cleanup and bx.term["k"] == "return" and bx.idx in b.live_blocks()]
+        final = None
+        unknown = []
+        kinds = {}
+        ret_sites = [(bi, sym.rvalue(st["rv"]), st.get("line")) for bi, i, st in b.stmts() if mir.is_local(st["lhs"]) and st["lhs"]["l"] == 0]
+        for bi, t in b.calls():
+            if t["k"] == "call" and mir.is_local(t["dest"]) and t["dest"]["l"] == 0:
+                # `return f(..)`: the value is the call; the exit is decided where the call's result arrives
+                ret_sites.append((t["target"] if t.get("target") is not None else bi, ("call", strip_generics(mir.callee_name(t)), tuple(sym.operand(a) for a in t["args"])), t.get("line")))
+        for bi, v, line in ret_sites:
+            st = {"line": line}
+            k = classify_exit(ix, b, sym, bi, v, aborts)
+            if k is None:
+                # the final value: returned after the move loop has ended (the iterator's None edge), nothing else deciding
+                cons = C.constraints_for(ix, b, sym, bi)
+                after_loop = any("Iterator>::next" in c[0] and "None" in c[1] for c in cons)
+                rest = [c for c in cons if not ("Iterator>::next" in c[0]) and not ("Vec::is_empty" in c[0]) and not (c[3][0] == "bin" and c[3][2] == ("var", "total_legal_moves"))
+                        and not (c[3][0] == "call" and (C.predicate_polarity(ix, c[3], "running") is not None or C.predicate_polarity(ix, c[3], "limits") is not None))
+                        and not ("get_halfmove_clock" in c[0] or "position_reached" in c[0] or "HashMap" in c[0] or "is_in_check" in c[0])
+                        and not (c[3][0] == "bin" and c[3][2] == ("arg", "depth")) and not (c[3][0] == "bin" and c[3][1] in ("Ge", "Gt", "Lt", "Le") and "entry" in c[0])
+                        and not (c[0].startswith("discr(") and "bound" in c[0])
+                        and not (c[3][0] == "bin" and c[3][1] in ("Ge", "Gt") and is_beta(c[3][3]) and set(c[1]) == {False})]
+                if after_loop and not rest and (v in (("var", "alpha"), ("var", "best_ply")) or key == C.ALPHA_BETA_START):
+                    k = "final value"
+            if k is None:
+                unknown.append((b.blocks[bi].term.get("line") or st.get("line"), expr_str(v)[:50]))
+            else:
+                kinds[k] = kinds.get(k, 0) + 1
+        ctx.check(not unknown, "%s:exit-inventory" % key, "every return of %s is an exit of the reference game (%s)" % (C.short(key), ", ".join("%s x%d" % kv for kv in sorted(kinds.items()))), b.where(0),
+                  bad_what="%s has exit(s) the reference game does not have (line, value): %s -- a node abandoned on any other ground (forward pruning, a shortcut) changes the value the search arrives at" % (C.short(key), unknown[:4]))
+        # no move skipped: from the orderer's Some edge the next call of next() is reached only through the illegal-move edge or a recursive search
+        nexts = [bi for bi, t in b.calls() if "MoveOrderer as std::iter::Iterator>::next" in (t.get("callee") or "")]
+        if len(nexts) != 1:
+            ctx.bad("%s:one-move-loop" % key, "%d MoveOrderer::next sites in %s" % (len(nexts), C.short(key)), b.where(0))
+            continue
+        nb = nexts[0]
+        searched = {bi for bi, t in recursive_calls(ix, b, C.ALPHA_BETA)} | {bi for bi, t in b.calls() if C.QUIESCENCE in ix.call_targets(t) and key == C.QUIESCENCE}
+        illegal = set()
+        for blk in b.blocks:
+            if blk.cleanup or blk.term["k"] != "switch":
+                continue
+            sc = C.switch_cond(b, sym, blk.idx)
+            if sc is None:
+                continue
+            e, neg = sc
+            if e[0] == "call" and e[1] in ("std::result::Result::is_err", "std::result::Result::is_ok") and "is_legal_move" in expr_str(e):
+                f, tr = C.switch_edges(blk.term)
+                bad_edge = tr if (e[1].endswith("is_err") != neg) else f
+                illegal |= {(blk.idx, t) for t in bad_edge}
+            if e[0] == "discr" and "is_legal_move" in expr_str(e):
+                illegal |= {(blk.idx, a[1]) for a in blk.term["arms"] if a[0] == 1}
+        start = b.blocks[nb].term["target"]
+        reach = C.reach_avoiding(b, start, removed_blocks=searched, forbidden_edges=illegal)
+        ctx.check(nb not in reach, "%s:no-move-skipped" % key, "every legal move the orderer yields is searched before the next one is taken", b.where(nb),
+                  bad_what="%s can take the next move without having searched the current one on a ground other than illegality (late-move / futility pruning of moves)" % C.short(key))
+
+
+RULES = [("exits", rule_exits), ("root-result", rule_root_result), ("permutation", rule_permutation), ("noninterference", rule_noninterference), ("windows", rule_windows), ("cut", rule_cut), ("terminal", rule_terminal)]
 
 
 def run(tier):
